@@ -93,8 +93,10 @@ func (l *Link) recv(ctx context.Context) ([]byte, error) {
 	}
 	select {
 	case b := <-l.inbox:
+		vrt.Woke("net.recv:" + l.name)
 		return b, nil
 	case <-ctx.Done():
+		vrt.Woke("net.recv:" + l.name)
 		return nil, ctx.Err()
 	}
 }
